@@ -41,6 +41,17 @@ static void grids() {
         J("GrayAlpha").num("v", v).num("a", a).arr("rgba", std::vector<int>{o[0], o[1], o[2], o[3]}).arr("rgb", std::vector<int>{o3[0], o3[1], o3[2]}).num("gray", o1[0]).emit();
     }
 }
+// gray_alpha across channel depths: gray and alpha are carried over by channel_convert (exact maps between 8 and 16 bits)
+static void gray_alpha_depths() {
+    for (int v : {0, 1, 77, 128, 254, 255}) for (int a : {0, 1, 127, 128, 200, 255}) {
+        gil::gray_alpha8_pixel_t s8((uint8_t)v, (uint8_t)a); gil::rgba16_pixel_t o16; gil::color_convert(s8, o16);
+        gil::rgba32f_pixel_t of; gil::color_convert(s8, of);
+        J("GrayAlphaX").str("dir", "8->16").num("v", v).num("a", a).arr("rgba", std::vector<long>{o16[0], o16[1], o16[2], o16[3]}).emit();
+        J("GrayAlphaX").str("dir", "8->32f").num("v", v).num("a", a).arr("rgba", std::vector<long>{std::lround(of[0] * 255.0f * 256), std::lround(of[1] * 255.0f * 256), std::lround(of[2] * 255.0f * 256), std::lround(of[3] * 255.0f * 256)}).emit();
+        gil::gray_alpha16_pixel_t s16((uint16_t)(v * 257), (uint16_t)(a * 257)); gil::rgba8_pixel_t o8; gil::color_convert(s16, o8);
+        J("GrayAlphaX").str("dir", "16->8").num("v", v).num("a", a).arr("rgba", std::vector<long>{o8[0], o8[1], o8[2], o8[3]}).emit();
+    }
+}
 static void cmyka(vt::Rng& rng, int n) {
     for (int i = 0; i < n; ++i) {
         gil::rgb8_pixel_t p(rng.below(256), rng.below(256), rng.below(256)); gil::cmyk8_pixel_t c; gil::color_convert(p, c);
@@ -62,5 +73,6 @@ int main(int argc, char** argv) {
     }
     if (mine()) grids();
     if (mine()) { vt::Rng rng(args.seed * 11 + 3); cmyka(rng, args.thorough() ? 20000 : 2000); }
+    if (mine()) gray_alpha_depths();
     J("End").num("events", vt::T().events).emit(); vt::T().close(); return 0;
 }
